@@ -330,7 +330,7 @@ theorem pset_v0_ser_parse (ko : KeyOps) (p : LPset) (h : LPsetWF0 ko p) :
 
 -- (the former GOAL `pset_v0_parse_wf_partial` is proved as `C18Z.pset_v0_parse_wf` / `pset_v0_parse_ser_parse`, for the
 --  well-formedness `LPsetWF0K` that admits the transaction parts kept since fix `d53`, under `LPset.noOwnIssuance`; the
---  witness that the condition is needed is `C18Z.pset_v0_own_issuance_unparseable`.)
+--  witness that the condition is needed is `C18Z.pset_v0_own_issuance_overrides`.)
 
 /-! non-vacuity: a PSETv2 object with liquid fields, a liquid-unknown key and a bitcoin field in every scope -/
 
@@ -346,7 +346,7 @@ def exOut : LOutScope :=
 def exP : LPset := { version := some 2, txVersion := some 2, inputs := [exIn], outputs := [exOut] }
 
 theorem exIn_wf : LInWF trivialKo exIn :=
-  ⟨rfl, rfl, by decide, by decide, by decide, by decide, trivial, trivial, by decide, ⟨rfl, rfl⟩⟩
+  ⟨rfl, rfl, by decide, by decide, by decide, by decide, trivial, trivial, by decide, ⟨rfl, rfl⟩, by decide⟩
 
 theorem exOut_wf : LOutWF trivialKo exOut :=
   ⟨rfl, by decide, by decide, by decide, by decide, by decide, rfl⟩
@@ -388,7 +388,7 @@ theorem exP0_wf : LPsetWF0 trivialKo exP0 := by
   refine ⟨by decide, trivial, by simp [exP0], by simp [exP0], by simp [exP0], by simp [exP0], ?_, ?_, ?_⟩
   · intro s hs
     simp [exP0] at hs; subst hs
-    exact ⟨rfl, rfl, by decide, by decide, by decide, by decide, trivial, trivial, by decide, ⟨rfl, rfl⟩⟩
+    exact ⟨rfl, rfl, by decide, by decide, by decide, by decide, trivial, trivial, by decide, ⟨rfl, rfl⟩, by decide⟩
   · intro s hs
     simp [exP0] at hs; subst hs
     exact ⟨by decide, by decide, by decide, by decide, by decide, by decide, rfl⟩
